@@ -31,6 +31,8 @@ ASSUMPTIONS = ['the v grid is the set of interpolation points reported by the co
 
 def gen(rng, tier, idx):
     npts = [rng.randint(5, 9), rng.randint(5, 8), rng.randint(7, 9), rng.randint(5, 12)]
+    if rng.random() < 0.03:
+        npts[3] = rng.choice([261, 300, 384])          # "all v-grid sizes": also more than 256 cells
     ckw = phys.gen_constants(rng, amplified=True, npts=npts)
     ckw['kN0'] = rng.choice([0.055, 0.3, 0.6])
     ckw['kTi'] = rng.choice([0.27586, 0.05, 0.5])
